@@ -371,6 +371,7 @@ def _offset(text, line, col):
 def _digest_main(r, main, text, spans, fns):
     js = main['json']
     hard = []
+    rlimit_msgs = []
     for d in main['diags']:
         if d.get('level') != 'error':
             continue
@@ -379,8 +380,7 @@ def _digest_main(r, main, text, spans, fns):
             continue
         low = msg.lower()
         if any(x in low for x in RLIMIT):
-            r.status = 'undecided'
-            r.reason = 'solver resource limit: ' + msg
+            rlimit_msgs.append(msg)
             continue
         sp = primary(d, os.path.basename(main['path']))
         if d.get('code') is not None or not any(x in low for x in VERIF_FAIL) or sp is None:
@@ -430,6 +430,17 @@ def _digest_main(r, main, text, spans, fns):
                 oid = '%s/tmpl:%s' % (r.name, host['qual'])
         rendered = d.get('rendered', msg)
         r.failed.setdefault(oid, []).append(rendered.strip())
+    if rlimit_msgs:
+        # The solver gave up somewhere.  With no refuted obligation at all the unit is undecided.  When specific obligations
+        # WERE refuted before the limit was hit (Verus reports the first failures of a function, then re-checks the rest of
+        # it, and it is such a re-check that runs out of resources) those refutations are ordinary solver answers and are
+        # kept; the limit is only noted.  (Seed C01-4: RENAME's two postconditions were refuted and then withheld because
+        # a later query of the same 450-line function exhausted the limit.)
+        if r.failed:
+            r.notes = getattr(r, 'notes', []) + ['solver resource limit hit after %d obligation(s) had been refuted: %s' % (len(r.failed), rlimit_msgs[0][:160])]
+        else:
+            r.status = 'undecided'
+            r.reason = 'solver resource limit: ' + rlimit_msgs[0]
     if hard:
         r.status = 'undecided'
         r.reason = 'verifier rejected the unit (dialect/type error, not a proof failure): ' + ' | '.join(hard[:4])
